@@ -360,7 +360,11 @@ pub struct PosSpec {
     /// 0 `position fen F` of the final position, 1 `position fen F0 moves ...`, 2 startpos form when possible
     pub form: u8,
 }
+thread_local! { static REPLAY_TEXT: std::cell::RefCell<Option<(String, Pos)>> = std::cell::RefCell::new(None); }
 pub fn position_text(ps: &PosSpec) -> Option<(String, Pos)> {
+    if let Some(x) = REPLAY_TEXT.with(|s| s.borrow().clone()) {
+        return Some(x);
+    }
     let (start, mut moves) = play_walk(&ps.walk)?;
     let mut p = start.clone();
     for m in &moves {
@@ -499,6 +503,15 @@ pub fn go_session_json(s: &GoSession) -> Value {
 /// replay of a concrete session: position text + go texts
 pub fn replay_go_session(case: &Value, lines_too: bool) -> CaseResult {
     let ptext = case.get("position").and_then(|x| x.as_str()).ok_or("no position in replay case")?;
+    if case.get("huge").is_some() {
+        let p = position_from_text(ptext)?;
+        let which = case.get("which").and_then(|x| x.as_u64()).unwrap_or(0) as u8;
+        REPLAY_TEXT.with(|r| *r.borrow_mut() = Some((ptext.to_string(), p)));
+        let ps = PosSpec { walk: WalkRecipe { start: Start::Corpus(0), choices: vec![] }, form: 0 };
+        let r = c18_huge_clock(&ps, which, &mut Stats::new());
+        REPLAY_TEXT.with(|r| *r.borrow_mut() = None);
+        return r;
+    }
     let gos: Vec<String> = case.get("gos").and_then(|x| x.as_array()).map(|a| a.iter().filter_map(|v| v.as_str().map(|s| s.to_string())).collect()).unwrap_or_default();
     let mut p = position_from_text(ptext)?;
     let mut e = Engine::spawn()?;
@@ -780,8 +793,69 @@ pub fn run_c03(ctx: &mut Ctx) {
     ctx.workers = saved;
 }
 
+/// C18 with enormous clocks ("all clock settings"): the search runs until the process is killed; the
+/// lines printed in the first few hundred milliseconds are judged.
+pub fn c18_huge_clock(ps: &PosSpec, which: u8, st: &mut Stats) -> CaseResult {
+    let Some((ptext, p)) = position_text(ps) else { return Ok(()) };
+    if p.legal_moves().is_empty() {
+        return Ok(());
+    }
+    st.eval();
+    // slices of 2^64 ms and a little more, 10^15 ms, and about i128::MAX / 80 ms
+    let clocks = ["691752902764108120700", "691752902764108128200", "691752902764108158200", "37500000000000100", "2126764793255865396646091296448555", "18446744073709551716"];
+    let c = clocks[which as usize % clocks.len()];
+    let go = if p.stm == Color::White { format!("go wtime {} btime 1000", c) } else { format!("go btime {} wtime 1000", c) };
+    let mut e = Engine::spawn()?;
+    e.handshake()?;
+    e.send(&ptext);
+    e.send(&go);
+    let (lines, _) = e.read_until(|l| l.starts_with("bestmove"), Duration::from_millis(500));
+    let infos: Vec<String> = lines.iter().map(|x| x.1.clone()).filter(|l| l.starts_with("info")).collect();
+    if lines.iter().any(|l| l.1.starts_with("bestmove")) {
+        // an answer within half a second of an allowance of millions of years is only legitimate
+        // when the search ran out of iterations (tiny tree: depth 99 reached)
+        let deepest = infos.iter().filter_map(|l| parse_info(l).ok()).map(|i| i.depth).max().unwrap_or(0);
+        if deepest < 99 {
+            let _ = c18_lines(&p, &infos, st).map_err(|m| format!("{} [`{}` ; `{}`]", m, ptext, go))?;
+        }
+    }
+    let parsed = c18_lines(&p, &infos, st).map_err(|m| format!("{} [`{}` ; `{}`]", m, ptext, go))?;
+    if c18_nontrivial(&parsed) {
+        st.nontrivial(fp(&(&ptext, &go)));
+    }
+    st.label("huge_clock_sessions");
+    Ok(())
+}
+
 pub fn run_c18_blackbox(ctx: &mut Ctx) {
     let t = ctx.tier;
+    {
+        let saved = ctx.workers;
+        ctx.workers = 8;
+        ctx.max_shrink_iters = 8;
+        run_prop(
+            ctx,
+            "real_binary_enormous_clocks",
+            || (pos_spec_strategy(), any::<u8>()),
+            t.pick(120, 1_500),
+            |(ps, which), st| {
+                st.sample(|| json!({"huge": true, "position": position_text(ps).map(|x| x.0), "which": which}));
+                match c18_huge_clock(ps, *which, st) {
+                    Ok(()) => Ok(()),
+                    Err(first) => {
+                        if c18_huge_clock(ps, *which, &mut Stats::new()).is_ok() {
+                            st.label("anomaly_not_reproduced_on_second_attempt");
+                            Ok(())
+                        } else {
+                            Err(first)
+                        }
+                    }
+                }
+            },
+            |(ps, which)| json!({"blackbox": true, "huge": true, "position": position_text(ps).map(|x| x.0), "which": which}),
+        );
+        ctx.workers = saved;
+    }
     ctx.max_shrink_iters = 12;
     let saved = ctx.workers;
     ctx.workers = 6;
